@@ -124,6 +124,24 @@ func c04Facts(re *regexp2.Regexp, text []rune, p, textstart, idx, length int) []
 				}
 			}
 			add("LeadingPrefixes", any)
+			// the case-sensitive search keys on the first runes of the prefixes; LeadingPrefixesRunes must be
+			// the same strings as LeadingPrefixes
+			if fo.FindMode == syntax.LeadingStrings_LeftToRight && len(fo.LeadingPrefixFirstRunes) > 0 {
+				ok := false
+				for _, fr := range fo.LeadingPrefixFirstRunes {
+					if p < n && text[p] == fr {
+						ok = true
+					}
+				}
+				add("LeadingPrefixFirstRunes", ok)
+			}
+			if len(fo.LeadingPrefixesRunes) > 0 {
+				ok := len(fo.LeadingPrefixesRunes) == len(fo.LeadingPrefixes)
+				for k := range fo.LeadingPrefixesRunes {
+					ok = ok && k < len(fo.LeadingPrefixes) && string(fo.LeadingPrefixesRunes[k]) == fo.LeadingPrefixes[k]
+				}
+				add("LeadingPrefixesRunes", ok)
+			}
 		case syntax.FixedDistanceChar_LeftToRight:
 			d := fo.FixedDistanceLiteral.Distance
 			add("FixedDistanceChar", p+d < n && text[p+d] == fo.FixedDistanceLiteral.C)
@@ -374,7 +392,7 @@ func init() {
 		g := &engGen{allowRTL: true, perPat: 8, maxLen: 10, biasFind: true}
 		core.RunLeg(c, core.Leg[engCase]{
 			Name: "H", Kind: "oracle(facts-at-matches)",
-			Rule: "patterns and inputs as C03 leg N; for every attempt position p of every input (0..len) the single-position attempt hook is run; at each position where it matches, every published fact is evaluated on the input: MinRequiredLength, MaxPossibleLength, LeadingAnchor, TrailingAnchor, LeadingPrefix (plain, OrdinalIgnoreCase, right-to-left), LeadingPrefixes, FixedDistanceChar/String, FixedDistanceSets (set, Chars, Range, Negated), LiteralAfterLoop, LeadingChar/LeadingSet right-to-left, FcPrefix (with its case flag), the Anchors bit mask; required-landmark chains and the Boyer-Moore tables are covered through C03 (find = naive scan) only. non-trivial = the input has at least one real match; histogram lists which facts were evaluated",
+			Rule: "patterns and inputs as C03 leg N; for every attempt position p of every input (0..len) the single-position attempt hook is run; at each position where it matches, every published fact is evaluated on the input: MinRequiredLength, MaxPossibleLength, LeadingAnchor, TrailingAnchor, LeadingPrefix (plain, OrdinalIgnoreCase, right-to-left), LeadingPrefixes (with LeadingPrefixFirstRunes and LeadingPrefixesRunes), FixedDistanceChar/String, FixedDistanceSets (set, Chars, Range, Negated), LiteralAfterLoop, LeadingChar/LeadingSet right-to-left, FcPrefix (with its case flag), the Anchors bit mask; required-landmark chains and the Boyer-Moore tables are covered through C03 (find = naive scan) only. non-trivial = the input has at least one real match; histogram lists which facts were evaluated",
 			N: c.N(8000, 300000), Corpus: engCorpus, Gen: g.next, Check: c04Check, Batch: 500,
 		})
 		var k int
